@@ -73,13 +73,20 @@ var peerPool = func() []p2p.PeerID {
 	return res
 }()
 
-func newWorld(seed int64) (w *world, err error) {
+func newWorld(seed int64) (w *world, err error) { return newWorldCfg(seed, nil) }
+
+// newWorldCfg: newWorld with a modified node configuration (C09CONC: a block cache smaller than the chain).
+func newWorldCfg(seed int64, mod func(*node.Config)) (w *world, err error) {
 	defer func() {
 		if r := recover(); r != nil {
 			err = fmt.Errorf("world construction panicked: %v", r)
 		}
 	}()
-	n, err := node.New(node.Config{NumValidators: numValidators, Seed: seed, GenesisTimestamp: genesisTimestamp, ExtraValidators: 1})
+	ncfg := node.Config{NumValidators: numValidators, Seed: seed, GenesisTimestamp: genesisTimestamp, ExtraValidators: 1}
+	if mod != nil {
+		mod(&ncfg)
+	}
+	n, err := node.New(ncfg)
 	if err != nil {
 		return nil, err
 	}
